@@ -17,6 +17,10 @@ CLAIMED = {
          "Encoder: for all 2^32 arguments the length is the UTF-8 table's, exactly that many bytes are written (exact-size block + ghost witness byte), byte shapes and payload are right. Decoder: DFCC contract on an arbitrary fresh block of exactly min(num,6) bytes with arbitrary num - no read outside it, result <= num, <= 6, trailing byte is a continuation byte, 0xFE/0xFF refused; both output modes agree. Round trip for every code point 1..2^31-1 and refusal of every proper prefix (loop-free after unwinding the <=7-step loops completely). a_utf_length under a loop contract with the decoder replaced by its contract and ghost call bookkeeping: one increment per accepted sequence, stop offset = sum of reported lengths <= num, stops when the decoder refuses.",
          "trusted: cbmc 6.11.0, LP64; a_utf_length_: read bound not decided (see evidence assumptions); buffers <= 2^32 bytes",
          "contract-based deductive verification with CBMC: DFCC function contracts (enforce + replace), loop contracts, complete unwinding of width-bounded loops", "5/C18"),
+ "C12": ("proof",
+         "Loop-free Hoare triples over IEEE doubles, decided by cbmc with the cvc5 back end: after one step of the plain, single-neuron and fuzzy-tuned controllers from an ARBITRARY prior state (all fields any double incl. NaN/inf; finite ordered output limits) the output lies in [outmin,outmax] and is what is returned - so it holds after every history; the positional integrator never moves further beyond its clamp and is frozen when outside and pushed outward (ki >= 0, summin <= 0 <= summax); bookkeeping of feedback/error/var; zero == init. Positional and incremental difference equations are equalities with the documented formula on the exact integer domain (bounded-domain units).",
+         "trusted: cbmc 6.11.0 float encoding + cvc5; assumed: induction over histories, a_pid_fuzzy_out_ by its frame contract, pos/inc coincidence by exact algebra from the two equations; 'state stays finite' not applicable",
+         "contract-based deductive verification with CBMC: Hoare triples from arbitrary state (inductive invariant = true), contract replacement of the gain scheduler", "5/C12"),
 }
 
 PENDING_REASON = "check not built yet in this session (work in progress; see DESIGN.md section 5 for the planned contracts)"
